@@ -24,9 +24,15 @@ func (m *MTProto) sendPacket(request tl.Object, expectedTypes ...reflect.Type) (
 		return nil, errors.Wrap(err, "encoding request message")
 	}
 
+	// must write synchroniously, cuz seqno must be upper each request. msgID is taken under the same lock,
+	// cuz server requires that ids are growing in the order messages are written
+	verifYield("prelock", 0)
+	m.seqNoMutex.Lock()
+	defer m.seqNoMutex.Unlock()
+
 	var (
 		data  messages.Common
-		msgID = utils.GenerateMessageId()
+		msgID = m.newMsgID()
 	)
 	verifYield("idgen", msgID)
 
@@ -56,11 +62,6 @@ func (m *MTProto) sendPacket(request tl.Object, expectedTypes ...reflect.Type) (
 		}
 	}
 
-	// must write synchroniously, cuz seqno must be upper each request
-	verifYield("prelock", msgID)
-	m.seqNoMutex.Lock()
-	defer m.seqNoMutex.Unlock()
-
 	err = m.transport.WriteMsg(data, MessageRequireToAck(request))
 	if err != nil {
 		return nil, errors.Wrap(err, "sending request")
@@ -76,6 +77,17 @@ func (m *MTProto) sendPacket(request tl.Object, expectedTypes ...reflect.Type) (
 
 	verifYield("written", msgID)
 	return resp, nil
+}
+
+// newMsgID returns id for the next outgoing message. seqNoMutex must be locked. Ids are based on the clock,
+// but they must be strictly increasing even if the clock stands still or steps back.
+func (m *MTProto) newMsgID() int64 {
+	msgID := utils.GenerateMessageId()
+	if msgID <= m.lastMsgID {
+		msgID = m.lastMsgID + 4 //nolint:gomnd two lower bits of client's msg_id are always zero
+	}
+	m.lastMsgID = msgID
+	return msgID
 }
 
 func (m *MTProto) writeRPCResponse(msgID int, data tl.Object) error {
